@@ -113,7 +113,7 @@ func c09r1(c *an.Ctx) {
 	fn := ra.fn
 	// typestate: "sized" = the unparsed buffer passed the limit test since it was last (re)filled;
 	//            "grown" = pkt.Data was appended to and not yet tested.
-	flow := &an.Flow{Fn: fn, Init: []string{""},
+	flow := &an.Flow{Fn: fn, Inline: an.InlineSamePackage(fn), Init: []string{""},
 		Step: func(st string, in ssa.Instruction) []string {
 			switch x := in.(type) {
 			case *ssa.Call:
@@ -374,7 +374,7 @@ func c09r2(c *an.Ctx) {
 func c09r3(c *an.Ctx) {
 	ra := readerA(c)
 	fn := ra.fn
-	flow := &an.Flow{Fn: fn, Init: []string{"parsed"}, Step: func(st string, in ssa.Instruction) []string {
+	flow := &an.Flow{Fn: fn, Inline: an.InlineSamePackage(fn), Init: []string{"parsed"}, Step: func(st string, in ssa.Instruction) []string {
 		if call, ok := in.(*ssa.Call); ok {
 			if an.IsCallTo(call.Common(), ra.read) {
 				return []string{"fresh"}
@@ -412,7 +412,7 @@ func c09r3(c *an.Ctx) {
 func c09r4(c *an.Ctx) {
 	ra := readerA(c)
 	fn := ra.fn
-	flow := &an.Flow{Fn: fn, Init: []string{""}, Step: func(st string, in ssa.Instruction) []string {
+	flow := &an.Flow{Fn: fn, Inline: an.InlineSamePackage(fn), Init: []string{""}, Step: func(st string, in ssa.Instruction) []string {
 		switch x := in.(type) {
 		case *ssa.Call:
 			if an.IsCallTo(x.Common(), ra.parse) {
